@@ -260,6 +260,10 @@ def run(F, R, tier):
     R.rule("R4", "tachyon flag <=> squared mass < 0, tested before sqrt(|m^2|), in every sector read by the a_mu code", 14)
     _check_tachyons(F, R)
 
+    # ---- R7 / R8 freshness of the spectrum -------------------------------------------------------------
+    R.guard(_fresh_all_sectors, F, R)
+    R.guard(_unconditional_sectors, F, R)
+
     # ---- R5 order ---------------------------------------------------------------------------------
     R.rule("R5", "Goldstone reordering (index 0, by MZ / MW) runs after all sector calculations and permutes masses "
                  "and mixing-matrix rows consistently", 4)
@@ -373,3 +377,80 @@ def _check_tachyons(F, R, rid="R4", consumed=True):
         R.check("R4", f["name"] in flagged, "%s is consumed by a_mu and flags tachyons" % mname, F.loc(f),
                 "sqrt(|m^2|) of a sector that enters a_mu without a tachyon flag: a negative m^2 is silently used",
                 key="R4|consumed|%s" % mname)
+
+
+# ---------------------------------------------------------------------------
+def _fresh_all_sectors(F, R):
+    """typestate 'fresh': after a public operation has written a Lagrangian parameter that enters the mass matrix of a sector,
+    that sector is recomputed before the operation returns -- for every sector with a get_mass_matrix_X / calculate_MX pair"""
+    from .rules_c16 import FieldFlow
+    FW = FieldFlow(F)
+    cls = CLS + "::"
+    sectors = []
+    for name in sorted(F.by_name):
+        m = re.match(re.escape(cls) + r"get_mass_matrix_(\w+)$", name)
+        if m and F.by_name.get(cls + "calculate_M" + m.group(1)):
+            sectors.append(m.group(1))
+    R.rule("R7", "every operation of the model that rewrites parameters entering a sector's mass matrix (Yukawa conversions, "
+                 "on-shell conversion, spectrum calculation) recomputes that sector afterwards, for all %d sectors: no reported "
+                 "mass/mixing pair is stale with respect to the Lagrangian parameters" % len(sectors), 30)
+    if len(sectors) < 25:
+        R.broken("R7: only %d mass-matrix/calculation pairs found" % len(sectors))
+        return
+    inputs, calc_mg = {}, {}
+    for sct in sectors:
+        g = F.fn(cls + "get_mass_matrix_" + sct)
+        inputs[sct] = set(FW.reads(g["body"]))
+        calc_mg[sct] = F.fn(cls + "calculate_M" + sct)["mg"]
+    ops = ["convert_to_non_tan_beta_resummed", "calculate_masses", "convert_to_onshell"]
+    for op in ops:
+        for f in F.by_name.get("gm2calc::MSSMNoFV_onshell::" + op, []):
+            stmts = f["body"].get("c", [])
+            clos = [FW.stmt_closure(st) for st in stmts]
+            wr = [FW.writes(st) for st in stmts]
+            for sct in sectors:
+                last_w, who = -1, None
+                for i, st in enumerate(stmts):
+                    w = wr[i] & inputs[sct]
+                    if w:
+                        last_w, who = i, sorted(x.split("::")[-1] for x in w)
+                if last_w < 0:
+                    continue
+                recalced = any(calc_mg[sct] in clos[j] or
+                               any(n.get("mg") == calc_mg[sct] for n in walk(stmts[j]) if is_call(n))
+                               for j in range(last_w, len(stmts)))
+                sig = "%s(%s)" % (op, ", ".join(p["name"] or "" for p in f["params"]))
+                R.check("R7", recalced, "%s: %s recomputed after the last write of %s" % (sig, sct, ", ".join(who)[:60]),
+                        F.loc(f, stmts[last_w]),
+                        "%s writes %s, which enter(s) the %s mass matrix, and returns without calling calculate_M%s: the reported "
+                        "masses / mixing matrix of that sector no longer belong to the model's parameters"
+                        % (op, ", ".join(who)[:80], sct, sct), key="R7|%s|%s|%d" % (op, sct, len(f["params"])))
+
+
+def _unconditional_sectors(F, R):
+    """every sector calculation of calculate_DRbar_masses (and of the wrappers it calls) runs on every path"""
+    from .structure import Struct
+    R.rule("R8", "calculate_DRbar_masses computes every sector unconditionally: no calculate_M* call is guarded by a condition or "
+                 "preceded by an early exit (a spectrum calculation that returns early leaves stale or zero masses behind)", 20)
+    seen = set()
+
+    def visit(fn_name, depth=0):
+        for g in F.by_name.get(CLS + "::" + fn_name, []):
+            S = Struct(g)
+            for x in walk(g["body"]):
+                if not is_call(x) or not (x.get("fn") or "").startswith(CLS + "::"):
+                    continue
+                short = x["fn"].split("::")[-1]
+                if re.match(r"^calculate_M\w+$", short) or short.startswith("reorder"):
+                    gs = S.guards(x)
+                    R.check("R8", not gs, "%s: %s runs on every path" % (fn_name, short), F.loc(g, x),
+                            "%s is executed only under a condition (%d guard(s), e.g. an early return after the EWSB solution): "
+                            "for other inputs the sector keeps its previous or zero-initialised masses" % (short, len(gs)),
+                            key="R8|%s|%s" % (fn_name, short))
+                elif short.startswith("calculate_") and depth < 2 and short not in seen:
+                    seen.add(short)
+                    gs = S.guards(x)
+                    R.check("R8", not gs, "%s: %s runs on every path" % (fn_name, short), F.loc(g, x),
+                            "%s is executed only under a condition" % short, key="R8|%s|%s" % (fn_name, short))
+                    visit(short, depth + 1)
+    visit("calculate_DRbar_masses")
